@@ -223,6 +223,12 @@ partial def schemaBranches (s : Body.S) : List String :=
       (bs.map schemaBranches).flatten
 end
 
+/-- some object member, at any depth, is an explicit null (the class of the repaired finding #24) -/
+partial def hasNullMember : Body.J → Bool
+  | .arr xs => xs.any hasNullMember
+  | .obj kvs => kvs.any (fun kv => kv.2.isNull || hasNullMember kv.2)
+  | _ => false
+
 def dedup (l : List String) : List String := l.foldr (fun x acc => if acc.contains x then acc else x :: acc) []
 
 def handle (j : Json) : Json :=
@@ -314,6 +320,8 @@ def handle (j : Json) : Json :=
     (if !clKnown then ["stream.clUnknown"] else []) ++
     (if origBytes.isEmpty && bodyText.isSome then ["stream.emptyBody"] else []) ++
     (if bodyText.isSome && origVal.isNone then ["body.notJSON"] else []) ++
+    (if bodyActive && (match origVal with | some v => hasNullMember v | none => false) then ["body.explicitNull"] else []) ++
+    (if bodyActive && !su.origCanonical then ["body.textNotCanonical"] else []) ++
     (if (header.toList.contains ';') then ["media.params"] else []) ++
     (if bodyReached then (match Media.contentGet (su.declared.map (·.1)) header with
        | none => ["media.unmatched"]
